@@ -251,7 +251,7 @@ class Exec(common.BaseExec):
                 if self.conf == "rect":
                     std = np.sqrt(np.maximum(np.diag(cov), 0))
                     L, U = mu - std * s, mu + std * s
-                    tol = 1e-9 * (np.abs(mu) + np.abs(std * s)) + 1e-300
+                    tol = 1e-9 * np.abs(mu) + 1e-6 * np.abs(std * s) + 1e-12
                     cands = [(L, U)]
                     if self.intersect:
                         prev = self.expected[i]
@@ -275,8 +275,8 @@ class Exec(common.BaseExec):
                     if np.any(g.lower > g.upper):
                         self.fail("lower-gt-upper", {"design": i})
                 else:
-                    tolc = 1e-9 * np.abs(mu) + 1e-300
-                    ok = g.center.shape == (self.m,) and np.all(np.abs(g.center - mu) <= tolc) and np.allclose(g.sigma, cov, rtol=1e-9, atol=0) and abs(g.alpha - float(s[0])) <= 1e-12 * abs(float(s[0]))
+                    tolc = 1e-9 * np.abs(mu) + 1e-12
+                    ok = g.center.shape == (self.m,) and np.all(np.abs(g.center - mu) <= tolc) and np.allclose(g.sigma, cov, rtol=1e-6, atol=1e-9 * float(np.max(np.abs(cov)))) and abs(g.alpha - float(s[0])) <= 1e-12 * abs(float(s[0]))
                     if not ok:
                         self.fail("region-not-prediction-scaled", {"design": i, "n_indices": len(idx_list), "scale_form": form, "got_center": np.asarray(g.center).tolist(), "want_center": mu.tolist()})
                     self.expected[i] = g
